@@ -1050,6 +1050,10 @@ class Interp:
         src = args[0]
         if isinstance(src, dict):
           src = list(src.keys())
+        if isinstance(src, NdArr):
+          if not src.shape:
+            raise _Raise('TypeError', 'iteration over a 0-d array', node)
+          src = [src.index(i) for i in range(src.shape[0])]
         return {'list': list, 'tuple': tuple, 'set': set, 'frozenset': frozenset}[b](src)
       if b == 'dict':
         out = {}
@@ -1202,6 +1206,8 @@ class Interp:
             raise _Raise('OverflowError', f'{base} cast to {tname} wraps around', node)
           return int(base) if base == int(base) else int(base)
         return base
+      if _is_num(base) and attr in ('flatten', 'ravel'):
+        return NdArr((1,), [base])   # a 0-d array flattens to one element
       if _is_num(base) and attr in ('astype', 'item', 'flatten', 'copy', 'squeeze'):
         return base   # a numpy scalar stays the same number
       if isinstance(base, bytes) and attr in ('decode', 'startswith', 'endswith'):
